@@ -402,6 +402,8 @@ impl Module {
         let out = cx.wasm_module.finish();
         log::debug!("emission finished");
 
+        self.customs = customs;
+
         // let mut validator = Validator::new();
         // if let Err(err) = validator.validate_all(&out) {
         //     eprintln!("{:?}", err);
